@@ -109,6 +109,34 @@ CHECKS = {
    "DESIGN.md 3.3, 3.4, 4/C20"),
 }
 
+
+# Dimensions added after the first version of each check (rounds 3-4 of the independently seeded changes showed the
+# same blind spots in several checks: memory layout, size thresholds, f32, builder histories, stale buffers, extremes).
+# Appended to the level text; the authoritative, generated description of what a run covered is the `rule` field of
+# each evidence file.
+ADDENDA = {
+ "C01": "Added later: storage layouts (column-major, transposed, reversed, sliced-out-of-a-larger-allocation owned arrays with sliced weights), the size family n in {1025, 4097} x k in {2,3,7,1024,n}, mock models that write only part of the prediction buffer and have their own default_target (the predictions seen by the evaluation closure must equal model_j.predict recomputed by the harness).",
+ "C02": "Added later: a hidden memory layout per container (standard, column-major, sliced, reversed, every-second-row with poison outside), label types bool / &str / String / i64 next to usize, single transitions on 1025- / 4097-row datasets incl. chunk sizes {1, 1024, 1025, n}.",
+ "C03": "Added later: batches of 1025 / 4097 rows x five memory layouts x ten calling forms for 21 predictors (9 also in f32), rows {0,1,1023,1024,n-1} (thorough: all) against single-row prediction, fit-side layouts for the deterministic fits, extreme-magnitude query rows, single-member composing wrappers, reused output buffers from a different batch.",
+ "C04": "Added later: builder histories (every rebuilding / type-changing setter before and after the value setters, valid-invalid-moved sequences: parameters, verdicts and first training form must equal the freshly built set), valid extremes (largest finite float, u32::MAX counts, array-valued logistic initial_params at MAX / MIN_POSITIVE / subnormal / -0.0 must be accepted).",
+ "C05": "Added later: non-standard layouts of every prediction / truth / record argument (reversed, stepped, column-major, transposed views of poisoned parents), vectors replicated to n in {1025, 4097} with closed-form values, f32 silhouette, scaled copies for the scale-invariant / -equivariant metrics.",
+ "C06": "Added later: records in five memory layouts for every kernel kind and index (k-d tree contiguity panic accepted and counted), layouts of the dot right-hand side and of the dense inner matrix, a 1025-record family, builder histories for kernel and clustering parameters (all setter orders, overwrites, defaults).",
+ "C07": "Added later: column-major and reversed-row batches, deep trees (4x4 lattice minus <= 1/2 points, 5x5 lattice with duplicates, 34/70 1-D points, 3x3x3 lattice, fixed generic-position scatters of 40/100 points in 2-D / 3-D / 8-D in three input orders) with leaf sizes {default via from_batch, 1, 4, 16, ...}.",
+ "C08": "Added later: five record layouts for array and dataset forms (bit-identical to the standard layout; k-d tree contiguity panic accepted), 1025-point sets, f32 at that size, builder histories (three constructors x every sequence of <= 3 tolerance / nn_algo / dist_fn writes with decoys).",
+ "C09": "Added later: layout sweep (fit, batch / single-row predict, transform bit-identical to the standard layout), replicated families n in {1024, 1025, 2049, 3000, 4097}, wide features d in {16, 17, 33, 40}, f32 at size, Linf / Lp metrics.",
+ "C10": "Added later: f32 sweep, budget ladder for convergence reporting, five record layouts for fit / predict / predict_proba, datasets of 1025 / 4097 rows, builder histories (all 720 setter orders incl. with_rng + decoy writes: getters and fits must equal the canonical order).",
+ "C11": "Added later: record / target layouts for fit and predict, replicated designs with n in {1025, 4097}.",
+ "C12": "Added later: five record layouts, lattices cycled to 1025 / 4097 rows, f32 models (in a CPU-limited child process), builder histories (120 / 720 setter orders, decoy writes, every constructor), predict_inplace into poisoned / reused buffers and through MultiTargetModel.",
+ "C13": "Added later: five record layouts for fit / predict / weighted_sum (bit-identical), n = 1025 members, f32 layouts.",
+ "C14": "Added later: five record layouts for fit and predict (trees bit-identical), datasets cycled to 1025 / 4097 rows, all 120 orders of the five setters with decoy writes.",
+ "C15": "Added later: every batch of a history in its own memory layout (all 5^L assignments), batches of 1025 / 4097 rows, f32 learners, builder histories of the incremental learners' parameter types, verdicts judged exactly only when the reference arithmetic is exact.",
+ "C16": "Added later: four memory layouts for fit and transform, an extreme-magnitude family (subnormal .. 1e300 / 1e38), long matrices with 1025 / 4097 rows.",
+ "C17": "Added later: seven document-array layouts for fit and transform independently, builder histories (every ordered pair of 12 settings, same object and clone, fit and check_ref first steps).",
+ "C18": "Added later: four record layouts for fit / predict / transform, n in {1024, 1025, 1500, 2048, 4097}, single-row vs batch projection, predict_inplace buffer re-use.",
+ "C19": "Added later: boundary values of every parameter type (None / Some(0) / Some(1) / huge for optional fields, every enum variant, zeros and extremes), one fitted instance per reachable state of Result / Option-typed model fields (error kinds compared), a field audit that reports optional fields never seen at Some(0).",
+ "C20": "Added later: hard inputs where fallback / retry / error paths run (non-converging diffusion map, PCA where LOBPCG breaks down, iterative fits stopped by their budget, empty clusters), 5000-row GMM / k-means, non-dyadic weighted multi-class trees.",
+}
+
 def main():
     checks = []
     for pid in ALL:
@@ -122,7 +150,7 @@ def main():
             "evidence_file": "/verif/evidence/%s.json" % pid,
             "replay_cmd_template": "./check %s --replay {path}" % pid,
             "engine": "lvmc",
-            "level_claimed": {"category": cat, "text": text, "design_ref": ref},
+            "level_claimed": {"category": cat, "text": text + (" " + ADDENDA[pid] if pid in ADDENDA else ""), "design_ref": ref},
             "level_note": note,
             "technique": tech,
         })
